@@ -789,11 +789,13 @@ def select__element_kind_test(self: XPathFunction, context: ta.ContextType = Non
 def nud__element_kind_test(self: XPathFunction) -> XPathFunction:
     self.parser.advance('(')
     if self.parser.next_token.symbol != ')':
-        self.parser.expected_next('(name)', ':', '*', message='a QName or a wildcard expected')
+        self.parser.expected_next(
+            '(name)', ':', '*', 'Q{', message='a QName or a wildcard expected'
+        )
         self[0:] = self.parser.expression(5),
         if self.parser.next_token.symbol == ',':
             self.parser.advance(',')
-            self.parser.expected_next('(name)', ':', message='a QName expected')
+            self.parser.expected_next('(name)', ':', 'Q{', message='a QName expected')
             self[1:] = self.parser.expression(80),
             if self.parser.next_token.symbol in ('*', '+', '?'):
                 self[1].occurrence = self.parser.next_token.symbol
@@ -897,12 +899,12 @@ def nud__attribute_kind_test_or_axis(self: XPathToken) -> XPathToken:
         self.label = 'kind test'
         self.parser.advance('(')
         if self.parser.next_token.symbol != ')':
-            self.parser.next_token.expected('(name)', '*', ':')
+            self.parser.next_token.expected('(name)', '*', ':', 'Q{')
             self[:] = self.parser.expression(5),
 
             if self.parser.next_token.symbol == ',':
                 self.parser.advance(',')
-                self.parser.next_token.expected('(name)', ':')
+                self.parser.next_token.expected('(name)', ':', 'Q{')
                 self[1:] = self.parser.expression(5),
 
         self.parser.advance(')')
@@ -926,7 +928,7 @@ def select__attribute_kind_test_or_axis(self: XPathToken, context: ta.ContextTyp
         for attribute in context.iter_attributes():
             yield attribute
     else:
-        name = self[0].value
+        name = self[0].name if self[0].symbol == ':' else self[0].value
         assert isinstance(name, str)
 
         if self.parser.schema is not None and len(self) == 2:
